@@ -15,6 +15,8 @@ OUT = "/verif/corpus/psim"
 T = REPO + "/tests/src/"
 
 entries = []
+# entries whose generated default actions are not expected to compile as they are
+NO_DEFAULT_BUILDER = set()
 
 
 def add(id, src, algo="lr", sentences=(), invalid=(), c12="TGW", w=True, w_reason="", files=(), inline=None, **settings):
@@ -32,6 +34,10 @@ def add(id, src, algo="lr", sentences=(), invalid=(), c12="TGW", w=True, w_reaso
         txt = open(f, encoding="utf-8").read()
         sents.append({"text": txt, "valid": True, "from": os.path.relpath(f, REPO)})
     e = {"id": id, "stem": stem, "algo": algo, "sentences": sents, "c12": c12, "w_eligible": w, "w_reason": w_reason}
+    # LR entries with the default lexer are also built with the generated
+    # DefaultBuilder + generated actions (C15 only)
+    if algo == "lr" and "lexer" not in settings and id not in NO_DEFAULT_BUILDER:
+        e["default_builder"] = True
     e.update(settings)
     entries.append(e)
 
